@@ -19,7 +19,7 @@
    before it was applied, or applied although the client saw an error (then the allocator reads its window back
    before it decides about the next save: LUpdDecide / LURDecide; LUpdAbort / LURAbort = that read failed). *)
 From Coq Require Import ZArith List.
-From PDV Require Import lib.Base gen.Gen_C01 model.C01_Tso proof.C01_Ctl proof.C01_Win proof.C01_Rec proof.C01_Main proof.C01_Skel model.C03_Env proof.C01_EnvTie.
+From PDV Require Import lib.Base gen.Gen_C01 model.C01_Tso proof.C01_Ctl proof.C01_Win proof.C01_Rec proof.C01_Main proof.C01_Skel model.C03_Env proof.C01_EnvTie proof.C01_Suffix.
 Import ListNotations.
 Local Open Scope Z_scope.
 
@@ -96,9 +96,61 @@ Theorem C01_leadership_labels_keep_timestamps : forall s l s',
             last_saved (mems s' j) = last_saved (mems s j).
 Proof. exact env_label_keeps_timestamps. Qed.
 
+(* An allocator that differentiates its logical part (a Local TSO Allocator with suffix sfx at width b; the Global one
+   with sfx = 0 once dc-locations exist): the answer for raw counter value L and count n stands for the values
+   differentiate (L - i) b sfx, i < n (stride 2^b), and getTS drops it unless differentiate L b sfx < maxLogical.
+   That check is stricter than the raw one, and the counter moves before the check either way: a run of such an
+   allocator is a run of the model with some more answers dropped (proof/C01_Suffix.v).  Order and disjointness of
+   everything the model grants carry over to the differentiated values ... *)
+Theorem C01_suffixed_values_ordered :
+  forall iv gap ls b sfx r1 r2 te1 te2 i j, guard < iv -> 0 <= b ->
+    let s := reach iv gap ls in
+    In r1 (recs s) -> In r2 (recs s) -> gst r1 = Granted te1 -> gst r2 = Granted te2 ->
+    (gtb r1 < gtb r2)%nat -> 0 <= i -> 0 <= j < gcount r2 ->
+    lt_pl (fst (value_of b sfx r1 i)) (snd (value_of b sfx r1 i)) (fst (value_of b sfx r2 j)) (snd (value_of b sfx r2 j)).
+Proof.
+  intros iv gap ls b sfx r1 r2 te1 te2 i j Hc Hb s H1 H2 G1 G2 Hlt Hi Hj.
+  apply values_ordered; [exact Hb| |exact Hi|exact Hj].
+  eapply C01_granted_ranges_disjoint_and_ordered; eauto.
+Qed.
+
+Theorem C01_suffixed_values_distinct_within_an_answer :
+  forall b sfx r i j, 0 <= b -> i < j -> snd (value_of b sfx r j) < snd (value_of b sfx r i).
+Proof. exact values_distinct_within. Qed.
+
+(* ... and the check on the differentiated value makes every value of the answer fit the 18-bit field (and positive),
+   so that the composed 64-bit values keep the order (C01_compose_preserves_order) *)
+Theorem C01_suffixed_logical_fits :
+  forall iv gap ls b sfx r te i, guard < iv -> 0 <= b -> 0 <= sfx ->
+    let s := reach iv gap ls in
+    In r (recs s) -> gst r = Granted te -> passes b sfx r -> 0 <= i < gcount r ->
+    0 < snd (value_of b sfx r i) + 1 /\ snd (value_of b sfx r i) < 2 ^ 18.
+Proof.
+  intros iv gap ls b sfx r te i Hc Hb Hs s Hr Hg Hp Hi.
+  destruct (C01_logical_fits iv gap ls r te Hc Hr Hg) as [Hlo _].
+  exact (values_fit b sfx r i Hb Hs Hlo Hp Hi).
+Qed.
+
+(* the suffixed check never lets through what the raw check (the model's) would drop *)
+Theorem C01_suffixed_check_is_stricter :
+  forall b sfx r, 0 <= b -> 0 <= sfx -> 0 <= gL r -> passes b sfx r -> gL r < 2 ^ 18.
+Proof. exact passes_raw. Qed.
+
+Example C01_suffixed_nonvacuous :
+  (* width 2, suffix 1: raw 65535 passes (262141), raw 65536 does not (262145 >= 2^18) although 65536 < 2^18 *)
+  let r1 := Rec 0 5000 65535 3 1 true (Granted 2) in
+  let r2 := Rec 0 5000 65536 1 3 true (Granted 4) in
+  passes 2 1 r1 /\ ~ passes 2 1 r2 /\ gL r2 < 2 ^ 18 /\
+  map (fun i => value_of 2 1 r1 i) [0; 1; 2] = [(5000, 262141); (5000, 262137); (5000, 262133)].
+Proof. unfold passes. vm_compute. repeat split; try reflexivity; intros H; discriminate H. Qed.
+
 Print Assumptions C01_granted_ranges_disjoint_and_ordered.
 Print Assumptions C01_realtime_order.
 Print Assumptions C01_logical_fits.
 Print Assumptions C01_compose_preserves_order.
 Print Assumptions C01_accepts_leadership_environment.
 Print Assumptions C01_leadership_labels_keep_timestamps.
+Print Assumptions C01_suffixed_values_ordered.
+Print Assumptions C01_suffixed_values_distinct_within_an_answer.
+Print Assumptions C01_suffixed_logical_fits.
+Print Assumptions C01_suffixed_check_is_stricter.
